@@ -23,6 +23,11 @@ func H_C20_w_twice() {
 	j, je := DocToJson(doc)
 	wj, _ := want.Json()
 	vAssert(je == nil && j == string(wj), "wrapper twice: DocToJson likewise")
+	r0 := ValuesFromKeyPath(m2, "doc.s.*", false)
+	if len(r0) > 0 {
+		r0[0] = "edited" // the caller owns the result
+	}
+	vAssert(vDeepEq(m2, map[string]interface{}(want)), "wrapper twice: editing a result does not edit the document")
 	r1 := ValuesFromKeyPath(m2, "doc.s.list", true)
 	keep := append([]interface{}{}, r1...)
 	r2 := ValuesFromKeyPath(m2, "doc.s.*", true)
